@@ -145,15 +145,26 @@ def cancel(p):
 
 
 def subst_names(e, env):
-    """copy of e with Names replaced by the AST expressions in env (Poly values are skipped)"""
-    class T(ast.NodeTransformer):
-        def visit_Name(self, n):
+    """copy of e with Names replaced by the AST expressions in env (Poly values are skipped);
+    nodes are rebuilt field by field (the `_parent` back links of the model are not followed)"""
+    def cp(n):
+        if isinstance(n, ast.Name) and isinstance(n.ctx, ast.Load):
             v = env.get(n.id)
-            if isinstance(v, ast.AST) and isinstance(n.ctx, ast.Load):
+            if isinstance(v, ast.AST):
                 return v
+        if not isinstance(n, ast.AST):
             return n
-    import copy
-    return T().visit(copy.deepcopy(e))
+        new = n.__class__()
+        for fld, val in ast.iter_fields(n):
+            if isinstance(val, list):
+                setattr(new, fld, [cp(x) for x in val])
+            else:
+                setattr(new, fld, cp(val))
+        for a in ('lineno', 'col_offset', 'end_lineno', 'end_col_offset'):
+            if hasattr(n, a):
+                setattr(new, a, getattr(n, a))
+        return new
+    return cp(e)
 
 
 def single_atom(p, atoms):
@@ -171,3 +182,110 @@ def single_atom(p, atoms):
                 return atoms[k]
             return ast.Name(id=k, ctx=ast.Load())
     return None
+
+
+def reduce_trig(p, pairs):
+    """rewrite s^2 -> 1 - c^2 for every (c, s) variable pair until no s has exponent >= 2"""
+    changed = True
+    p = cancel(p)
+    guard = 0
+    while changed and guard < 50:
+        guard += 1
+        changed = False
+        out = Poly()
+        for mono, coef in p.t.items():
+            d = dict(mono)
+            hit = None
+            for c, s_ in pairs:
+                if d.get(s_, 0) >= 2:
+                    hit = (c, s_)
+                    break
+            if hit is None:
+                out = out + Poly({mono: coef})
+                continue
+            changed = True
+            c, s_ = hit
+            d[s_] -= 2
+            base = Poly({tuple(sorted((v, e) for v, e in d.items() if e != 0)): coef})
+            out = out + base * (Poly.const(1) - Poly.var(c) * Poly.var(c))
+        p = cancel(out)
+    return p
+
+
+def poly_sym(e, env, resolve):
+    """polynomial of an expression; `resolve(node)` may return a Poly for a sub-expression
+    (e.g. cos(a) -> variable), else None"""
+    r = resolve(e)
+    if r is not None:
+        return r
+    if isinstance(e, ast.Constant) and isinstance(e.value, (int, float)) and not isinstance(e.value, bool):
+        return Poly.const(e.value)
+    if isinstance(e, ast.Name):
+        if e.id in env:
+            v = env[e.id]
+            return v if isinstance(v, Poly) else poly_sym(v, env, resolve)
+        return Poly.var(e.id)
+    if isinstance(e, ast.UnaryOp) and isinstance(e.op, ast.USub):
+        return -poly_sym(e.operand, env, resolve)
+    if isinstance(e, ast.UnaryOp) and isinstance(e.op, ast.UAdd):
+        return poly_sym(e.operand, env, resolve)
+    if isinstance(e, ast.BinOp):
+        if isinstance(e.op, ast.Pow) and isinstance(e.right, ast.Constant) and e.right.value == 2:
+            a = poly_sym(e.left, env, resolve)
+            return a * a
+        a, b = poly_sym(e.left, env, resolve), poly_sym(e.right, env, resolve)
+        if isinstance(e.op, ast.Add):
+            return a + b
+        if isinstance(e.op, ast.Sub):
+            return a - b
+        if isinstance(e.op, ast.Mult):
+            return a * b
+    raise ValueError('not polynomial: %s' % norm(e))
+
+
+def poly_roles(e, env=None, depth=0):
+    """Poly of an expression with atoms named by *role*: attribute chains are reduced to their last
+    attribute (`ld.epsilon_r`, `geobj.coat_load.epsilon_r` -> epsilon_r), `np.x` -> x, calls become
+    atoms `f(<poly of args>)`; division multiplies by the inverse atom.  Local names may be
+    pre-resolved through env {name: AST}."""
+    env = env or {}
+    if depth > 20:
+        raise ValueError('too deep')
+    if isinstance(e, ast.Constant) and isinstance(e.value, (int, float, complex)) and not isinstance(e.value, bool):
+        return Poly.const(e.value)
+    if isinstance(e, ast.Name):
+        if e.id in env:
+            return poly_roles(env[e.id], env, depth + 1)
+        return Poly.var(e.id)
+    if isinstance(e, ast.Attribute):
+        return Poly.var(e.attr)
+    if isinstance(e, ast.UnaryOp) and isinstance(e.op, ast.USub):
+        return -poly_roles(e.operand, env, depth + 1)
+    if isinstance(e, ast.BinOp) and isinstance(e.op, (ast.Add, ast.Sub, ast.Mult)):
+        a, b = poly_roles(e.left, env, depth + 1), poly_roles(e.right, env, depth + 1)
+        return a + b if isinstance(e.op, ast.Add) else (a - b if isinstance(e.op, ast.Sub) else a * b)
+    if isinstance(e, ast.BinOp) and isinstance(e.op, ast.Div):
+        a = poly_roles(e.left, env, depth + 1)
+        d = cancel(poly_roles(e.right, env, depth + 1))
+        if len(d.t) == 1:
+            (mono, coef), = d.t.items()
+            return cancel(a * Poly({tuple(sorted((v, -ex) for v, ex in mono)): 1 / coef}))
+        return cancel(a * Poly({(('inv[%r]' % d, 1),): 1}))
+    if isinstance(e, ast.BinOp) and isinstance(e.op, ast.Pow) and isinstance(e.right, ast.Constant) \
+            and isinstance(e.right.value, int) and 0 <= e.right.value <= 4:
+        a = poly_roles(e.left, env, depth + 1)
+        out = Poly.const(1)
+        for _ in range(e.right.value):
+            out = out * a
+        return out
+    if isinstance(e, ast.Call):
+        fn = e.func.attr if isinstance(e.func, ast.Attribute) else (e.func.id if isinstance(e.func, ast.Name) else '?')
+        args = ', '.join(repr(cancel(poly_roles(a, env, depth + 1))) for a in e.args)
+        return Poly.var('%s(%s)' % (fn, args))
+    if isinstance(e, ast.Subscript):
+        return Poly.var('%s[%s]' % (repr(poly_roles(e.value, env, depth + 1)), norm(e.slice)))
+    raise ValueError('not understood: %s' % norm(e))
+
+
+def roles_of_text(text, env=None):
+    return cancel(poly_roles(ast.parse(text, mode='eval').body, env or {}))
